@@ -21,11 +21,15 @@ ENV_FT = {"case_type": "envcase", "imports": ["Lib.Bytes", "Limiter.Limiter", "L
 PROPS = {
     "C09": {
         "props_file": "Props/C09.v",
-        "run_files": ["Run/CaseC09.v"],
+        "run_files": ["Run/CaseC09.v", "Run/CaseConn3.v"],
         "imports": ["Lib.Bytes", "Codec.VarInt", "Codec.Desc", "Gen.PacketsGen", "Run.CaseC09"],
         "case_type": "c09case",
         "checkers": {"RT": "check_c09", "DEC": "check_c09", "VI": "check_c09", "VL": "check_c09", "VR": "check_c09", "VX": "check_c09"},
-        "harness": [{"bin": "codec"}],
+        "family_types": {"WCAP": WCAP_FT},
+        "harness": [{"bin": "codec"},
+                    # every packet as it is SENT, also after an interrupted send: the frames a client receives under a transport
+                    # that refuses writes (M3) must be complete canonical packets
+                    {"bin": "conn", "max_scale": 2, "env": {"VERIF_FAMILIES": "WCAP"}, "case_type": "conn_case", "imports": WCAP_FT["imports"], "checkers": {"WCAP": "check_conn3"}, "shard": 12}],
         "quick_scale": 1, "thorough_scale": 12, "search_factor": 6,
         "ties": ["Gen/PacketsGen.v regenerated from passage-packets/src/{handshake,status,login,configuration,lib}.rs",
                  "Gen/ConstsGen.v: read_varint/read_varlong loop bounds from reader.rs"],
